@@ -255,13 +255,10 @@ func (H) Gen(prop string, seed uint64, tier string) *hx.Case {
 			for !anc.Valid() {
 				anc = anc.Parent
 			}
-			b, ok := m.Build(anc, ledger.BlockOpts{NTx: r.Intn(3)})
+			b, ok := m.Build(parent, ledger.BlockOpts{NTx: r.Intn(3), ViewFrom: anc})
 			if !ok {
 				continue
 			}
-			b.H.Prev = parent.Hash
-			b.H.Time = parent.Time + 600
-			m.Finish(parent, b)
 			if n := l.Add(b, 1<<40); n != nil {
 				cfg.Blocks = append(cfg.Blocks, b)
 				made = append(made, n)
@@ -291,6 +288,9 @@ func (H) Gen(prop string, seed uint64, tier string) *hx.Case {
 			o.Time = parent.MTP() + 1
 		case 2:
 			o.Time = parent.Time + 1201 + uint32(r.Intn(600))
+		}
+		if mut == "merkle-dup" {
+			o.NTx = []int{2, 4, 5, 5, 9, 11, 13}[r.Intn(7)] // transaction counts whose tree has an odd level above the leaves, too
 		}
 		b, ok := m.Build(parent, o)
 		if !ok {
@@ -323,6 +323,38 @@ func (H) Gen(prop string, seed uint64, tier string) *hx.Case {
 			best = n
 		}
 	}
+	if (prop == "C06" || prop == "C07") && r.Chance(0.3) && best.Height > prefixLen+1 {
+		// a side branch that outgrows the active chain but whose j-th block (j>=2) is invalid only in context:
+		// the reorganisation connects j-1 of its blocks, fails, and must end on the most-work valid chain again
+		d := uint32(r.Range(1, 3))
+		if fork := best.Ancestor(best.Height - d); fork != nil && fork.Height >= prefixLen {
+			cur, bad := fork, r.Range(2, int(d)+1)
+			for j := 1; j <= int(d)+1+r.Intn(2); j++ {
+				o := ledger.BlockOpts{NTx: r.Range(1, 4)}
+				if j == bad {
+					o.Viol = []string{"bad-sig", "spent-input", "overspend", "immature", "double-in-block", "missing-input"}[r.Intn(6)]
+				}
+				anc := cur
+				for !anc.Valid() {
+					anc = anc.Parent
+				}
+				if anc != cur {
+					o.ViewFrom = anc
+				}
+				b, ok := m.Build(cur, o)
+				if !ok {
+					break
+				}
+				n := l.Add(b, 1<<40)
+				if n == nil {
+					break
+				}
+				cfg.Blocks = append(cfg.Blocks, b)
+				made = append(made, n)
+				cur = n
+			}
+		}
+	}
 	// delivery schedule
 	order := make([]int, len(cfg.Blocks))
 	for i := range order {
@@ -345,9 +377,11 @@ func (H) Gen(prop string, seed uint64, tier string) *hx.Case {
 	var ops []json.RawMessage
 	id := 0
 	add := func(o Op) { id++; o.ID = id; ops = append(ops, hx.J(o)) }
+	var lost []int
 	for _, bi := range order {
-		if r.Chance(0.08) {
-			continue // lost: never delivered (may be delivered late below)
+		if r.Chance(0.04) {
+			lost = append(lost, bi)
+			continue // lost for now (most histories deliver them late, see below)
 		}
 		add(Op{Op: "deliver", B: bi})
 		if r.Chance(0.07) {
@@ -393,10 +427,18 @@ func (H) Gen(prop string, seed uint64, tier string) *hx.Case {
 			}
 		}
 	}
-	// late arrival of some of the lost ones
-	for bi := range cfg.Blocks {
-		if r.Chance(0.05) {
+	// late arrival: in most histories every lost block turns up in the end (then whole subtrees that were
+	// waiting for it get connected at once); otherwise a few random ones are delivered again
+	if r.Chance(0.7) {
+		sort.Ints(lost)
+		for _, bi := range lost {
 			add(Op{Op: "deliver", B: bi})
+		}
+	} else {
+		for bi := range cfg.Blocks {
+			if r.Chance(0.05) {
+				add(Op{Op: "deliver", B: bi})
+			}
 		}
 	}
 	return &hx.Case{Cfg: hx.J(cfg), Ops: ops}
@@ -673,6 +715,11 @@ func (r *run) deliver(bi int, when string) {
 			r.viol(clauseClass(ln.Clause), "%s: block %s (height %d, generator label %q) violates %q per the reference ledger, its parent was the active tip, and the node accepted it", when, hs(hh), ln.Height, blk.Label, ln.Clause)
 			return
 		}
+		if !ln.AncBad && contextFree[ln.Clause] {
+			// header / structure / commitment rules are checked before a block enters the tree, on any branch
+			r.viol(clauseClass(ln.Clause), "%s: block %s (height %d, generator label %q) violates the header/structure rule %q per the reference ledger and was accepted into the block tree (as a side-branch block)", when, hs(hh), ln.Height, blk.Label, ln.Clause)
+			return
+		}
 		// model: newly connectable valid nodes may take over the tip (strictly more work only)
 		r.advanceModel(ln)
 		// children that were waiting for this block
@@ -727,6 +774,13 @@ func (r *run) syncPurged(when string) {
 		r.out.Probe("invalid_branch_purged", 1)
 	}
 }
+
+// contextFree: clauses the node must enforce when a block is delivered, whatever branch it is on.
+var contextFree = map[string]bool{"block-length": true, "bits-encoding": true, "high-hash": true, "bad-diffbits": true, "time-too-old": true,
+	"bad-version": true, "first-not-coinbase": true, "multiple-coinbase": true, "tx-no-inputs": true, "tx-no-outputs": true, "tx-oversize": true,
+	"tx-duplicate-input": true, "tx-null-prevout": true, "coinbase-script-length": true, "bad-cb-height": true, "non-final": true,
+	"merkle-mutated": true, "bad-merkle-root": true, "witness-nonce-size": true, "witness-merkle-mismatch": true, "unexpected-witness": true,
+	"weight": true, "value-out-of-range": true, "value-sum-out-of-range": true}
 
 func clauseClass(c string) string {
 	switch c {
